@@ -153,3 +153,50 @@ def _adhoc_table_obligation():
     clash = sorted(set(keys) & DEFAULT_REPR_WORDS)
     return [(name, not clash, "none of the %d trigger words is a word repr() writes for a bool / None default" % len(keys) if not clash
              else "trigger word(s) %r are what 'Defaults to <repr>' writes for a default: the declared type of such a parameter is replaced by the sniffed one" % clash)]
+
+
+# --------------------------------------------------------------------------------------------------------------
+# extract_default, the default-text scanner (the loop that decides where the text after "Defaults to" ends): for every
+# line, every announce position and both spellings ("Defaults to X" / "(default: X)").
+#   * what it takes is a PREFIX of the text after the announce, and the offset handed on is announce end + its length;
+#   * it stops only AT a full stop, never at one that is followed by a digit (so `1.5`, `-0.25`, `1e-3` with a
+#     fraction are not cut);
+#   * a text without full stop and without brackets, followed by the end of the line or by a sentence-ending full stop,
+#     is taken WHOLE (so an int / bool / word default written by the emitter comes back complete).
+ED = "cdd.shared.defaults_utils:extract_default"
+_BR = "{[()]}"
+_PAR0 = " and ".join("field(par, %r) == 0" % b for b in _BR)
+
+
+def _scan_contract(tag, offset_kind, offset_req, sub_l):
+    # H: T is a bracket-free, stop-free text at the start of the scanned text, followed by its end or by a sentence-ending
+    # full stop (one that is the last character or is not followed by a digit)
+    H = ("startswith({s}, T) and not contains(T, '.') and {nobr} and (length(T) == length({s}) or (substr({s}, length(T), length(T) + 1) == '.'"
+         " and (length(T) + 1 == length({s}) or not isdigit(substr({s}, length(T) + 1, length(T) + 2)))))").format(
+        s=sub_l, nobr=" and ".join("not contains(T, %r)" % b for b in _BR))
+    return Contract(
+        ED + "#default-text-scan/" + tag,
+        src=ED,
+        block=("default = ''", "start_rest_offset = "),
+        params={"line": "str", "_end_idx": "int", "default_end_offset": offset_kind, "T": "str"},
+        requires=["_end_idx >= 0", "_end_idx <= length(line)"] + offset_req,
+        ensures=[
+            "startswith(%s, default)" % sub_l,
+            "start_rest_offset == _end_idx + length(default) and start_rest_offset <= length(line)",
+            "default == %s or substr(%s, length(default), length(default) + 1) == '.'" % (sub_l, sub_l),
+            "implies(default != %s and length(default) + 1 < length(%s), not isdigit(substr(%s, length(default) + 1, length(default) + 2)))" % (sub_l, sub_l, sub_l),
+            "implies(%s, default == T)" % H,
+        ],
+        loops={1: {"invariant": [
+            "default == done",
+            "sub_l == %s" % sub_l,
+            "sub_l_len == length(sub_l)",
+            "implies(%s, length(done) <= length(T) and %s)" % (H, _PAR0),
+        ]}},
+    )
+
+
+CONTRACTS.append(_scan_contract("plain", "none", [], "substr(line, _end_idx, length(line))"))
+# "(default: X)" / "(default: X)." : the closing parenthesis (and full stop) are cut off before the scan
+CONTRACTS.append(_scan_contract("paren", "int", ["default_end_offset == -1 or default_end_offset == -2", "length(line) + default_end_offset >= 0"],
+                                "substr(line, _end_idx, length(line) + default_end_offset)"))
